@@ -1823,6 +1823,23 @@ impl ElementMut for XmlElement {
         Ok(())
     }
 
+    fn remove_attribute_node(&self, old_attr: XmlAttr) -> error::Result<XmlAttr> {
+        // Exactly the given attribute: another attribute of this element may have the same
+        // local name under a different prefix.
+        let mine = match old_attr.attribute.borrow().owner_element() {
+            Ok(owner) => Rc::ptr_eq(&owner, &self.element),
+            Err(_) => false,
+        };
+        if !mine {
+            return Err(error::DomException::NotFoundErr)?;
+        }
+        let id = old_attr.as_node().id();
+        match self.element.borrow_mut().remove_attribute_by_id(id) {
+            Some(_) => Ok(old_attr),
+            None => Err(error::DomException::NotFoundErr)?,
+        }
+    }
+
     fn set_attribute_node(&self, new_attr: XmlAttr) -> error::Result<Option<XmlAttr>> {
         if !XmlDocument::same(&self.owner_document(), &new_attr.owner_document()) {
             return Err(error::DomException::WrongDocumentErr)?;
